@@ -281,7 +281,7 @@ verif_harness! {
     }
 }
 
-//@ harness name=tf_roundtrip_ed prop=C01 tier=quick bits=1546 stub=1 est=90 desc="W: decrypt(encrypt(b)) == b on an arbitrary (s, k[40], start<=2) state (superset of all keys of the three lengths), every block; g_func uninterpreted (any function works for a Feistel network)"
+//@ harness name=tf_roundtrip_ed prop=C01 tier=quick bits=1546 stub=1 est=110 desc="W: decrypt(encrypt(b)) == b on an arbitrary (s, k[40], start<=2) state (superset of all keys of the three lengths), every block; g_func uninterpreted (any function works for a Feistel network)"
 verif_harness! {
     name: tf_roundtrip_ed,
     bytes: 193,
@@ -296,7 +296,7 @@ verif_harness! {
     }
 }
 
-//@ harness name=tf_roundtrip_de prop=C01 tier=quick bits=1546 stub=1 est=90 desc="W: encrypt(decrypt(b)) == b on an arbitrary (s, k[40], start<=2) state, every block; g_func uninterpreted"
+//@ harness name=tf_roundtrip_de prop=C01 tier=quick bits=1546 stub=1 est=95 desc="W: encrypt(decrypt(b)) == b on an arbitrary (s, k[40], start<=2) state, every block; g_func uninterpreted"
 verif_harness! {
     name: tf_roundtrip_de,
     bytes: 193,
